@@ -81,3 +81,12 @@ Theorem quad_model_line_exec n (P : list (list Qc)) (m x d : list Qc) (t : Qc) :
 Proof.
   intros Hwf Hn Hs. apply quad_model_line; [apply wf_matb_spec; exact Hwf | exact Hn | apply symb_sym_form; assumption].
 Qed.
+
+(* GMRF: gradient = -delta P (x - mean) for the structure matrix P the logpdf uses, under the computable hypotheses *)
+Theorem gmrf_model_line_exec n (delta : Qc) (Pop : list (list Qc)) (m x d : list Qc) (t : Qc) :
+  wf_matb n Pop = true -> length Pop = n -> symb n Pop = true -> length m = n -> length x = n -> length d = n ->
+  gmrf_logk delta Pop m (qvadd x (qvscale t d)) =
+  (gmrf_logk delta Pop m x + t * qdot (gmrf_grad delta Pop m x) d - half * (t * t) * (delta * qdot d (qmatvec Pop d)))%Qc.
+Proof.
+  intros Hwf Hn Hs. apply gmrf_model_line; [apply wf_matb_spec; exact Hwf | exact Hn | apply symb_sym_form; assumption].
+Qed.
